@@ -656,6 +656,15 @@ class NumberOrderedForm(Operator):
             # Convert base to NumberOrderedForm
             base_nof = NumberOrderedForm.from_expr(base, operators=operators)
 
+            # An exponent that depends on number operators, like in (-1)**N, must be
+            # expressed through the placeholders too, otherwise it is not shifted
+            # when it is commuted through creation and annihilation operators.
+            if exp.atoms(Operator):
+                exp_nof = NumberOrderedForm.from_expr(exp, operators=operators)
+                if not exp_nof.is_particle_conserving():
+                    raise ValueError(f"Exponent must be particle conserving: {exp}")
+                exp = sympy.Add(*(coeff for _, coeff in exp_nof.args[1]))
+
             # Use the __pow__ method to handle the exponentiation
             return base_nof**exp
 
